@@ -15,7 +15,7 @@ pub const OPERANDS: &[&str] = &[
 /// the operand menu resolve to an array, a record, a function, etc.
 pub const HEADER: &str = "TYPE T\n  F AS INTEGER\n  S AS STRING * 3\nEND TYPE\nDECLARE FUNCTION F (X)\nDECLARE FUNCTION G$ (X$)\nDIM R AS T\nDIM A(5)\nDIM A$(5)\n";
 
-pub const FOOTER: &str = "END\nL1:\nRETURN\nFUNCTION F (X)\n  F = X\nEND FUNCTION\nFUNCTION G$ (X$)\n  G$ = X$\nEND FUNCTION\nSUB P (X)\nEND SUB\nSUB Q (X$, Y%)\nEND SUB\n";
+pub const FOOTER: &str = "END\nL1:\nRETURN\nFUNCTION F (X)\n  F = X\nEND FUNCTION\nFUNCTION G$ (X$)\n  G$ = X$\nEND FUNCTION\nSUB P (X)\nEND SUB\nSUB Q (X$, Y%)\nEND SUB\nSUB PA (X())\nEND SUB\nSUB PAS (X$())\nEND SUB\n";
 
 /// Templates: `@` marks a slot; the default filling of each slot follows after `|`, comma separated.
 pub const TEMPLATES: &[&str] = &[
@@ -91,6 +91,22 @@ pub const TEMPLATES: &[&str] = &[
     "A(@) = @|1,1",
     "A$(@) = @|1,\"x\"",
     "SWAP @, @|A,A",
+    // the number of subscripts differs from the number of dimensions
+    "PRINT A(@, @)|1,1",
+    "A(@, @) = 1|1,1",
+    "DIM ZZ(2, 2)\nPRINT ZZ(@)|1",
+    "DIM ZZ(2, 2)\nZZ(@, @, @) = 1|1,1,1",
+    // FIELD wider than the record
+    "OPEN \"f.txt\" FOR RANDOM AS #1 LEN = 4\nFIELD #1, 6 AS FV$\nPUT #1, @\nGET #1, @|1,1",
+    "OPEN \"f.txt\" FOR RANDOM AS #1 LEN = 4\nFIELD #1, 3 AS FV$, @ AS FW$\nLSET FW$ = \"wxyz\"\nPUT #1, 1\nGET #1, 2|2",
+    // RANDOM without LEN
+    "OPEN \"f.txt\" FOR RANDOM AS #1\nFIELD #1, @ AS FV$\nLSET FV$ = \"x\"\nPUT #1, 1\nGET #1, 1\nPRINT FV$|4",
+    // whole arrays as arguments
+    "DIM FA(2) AS STRING * 3\nPAS @|FA()",
+    "PAS @|A$()",
+    "PA @|A()",
+    "CALL P(@)|A",
+    "CALL Q(@, @)|\"x\",1",
     "@|P",
     "@ @|P,1",
 ];
@@ -184,7 +200,7 @@ pub const CONTAINERS: [&str; 8] = [
 pub fn program_in(c: usize, stmt: &str) -> String {
     let types = "TYPE T\n  F AS INTEGER\n  S AS STRING * 3\nEND TYPE\nDECLARE FUNCTION F (X)\nDECLARE FUNCTION G$ (X$)\n";
     let dims = "DIM R AS T\nDIM A(5)\nDIM A$(5)\n";
-    let fns = "FUNCTION F (X)\n  F = X\nEND FUNCTION\nFUNCTION G$ (X$)\n  G$ = X$\nEND FUNCTION\nSUB P (X)\nEND SUB\nSUB Q (X$, Y%)\nEND SUB\n";
+    let fns = "FUNCTION F (X)\n  F = X\nEND FUNCTION\nFUNCTION G$ (X$)\n  G$ = X$\nEND FUNCTION\nSUB P (X)\nEND SUB\nSUB Q (X$, Y%)\nEND SUB\nSUB PA (X())\nEND SUB\nSUB PAS (X$())\nEND SUB\n";
     match c {
         0 => format!("{}W\nEND\n{}SUB W\n{}{}\nEXIT SUB\nL1:\nRETURN\nEND SUB\n", types, fns, dims, stmt),
         1 => format!("{}PRINT WF(1)\nEND\n{}FUNCTION WF (N)\n{}{}\nWF = 1\nEXIT FUNCTION\nL1:\nRETURN\nEND FUNCTION\n", types, fns, dims, stmt),
